@@ -18,7 +18,7 @@ extra_trusted = c19.extra_trusted
 
 KINDS = ["MUSIC", "BANNER", "BACKGROUND", "CDTITLE", "JACKET", "CDIMAGE", "DISC"]
 ATTR = {"MUSIC": "music", "BANNER": "banner", "BACKGROUND": "background", "CDTITLE": "cdtitle", "JACKET": "jacket", "CDIMAGE": "cdimage", "DISC": "disc"}
-HITS = ["banner.png", "Song Banner.JPG", "songbn.png", "bn.png", "background.jpg", "song-bg.png", "BG.PNG", "cdtitle.png", "my cdtitle.gif", "jk_song.png",
+HITS = ["Cafe\u0301-bn.png", "cafe\u0301 banner.PNG", "banner.png", "Song Banner.JPG", "songbn.png", "bn.png", "background.jpg", "song-bg.png", "BG.PNG", "cdtitle.png", "my cdtitle.gif", "jk_song.png",
         "Jacket.png", "albumart.jpg", "song-cd.png", "song disc.png", "song title.png", "song.ogg", "Song.MP3", "audio.wav", "x.oga",
         "Mr. Saxobeat-BG.png", "Mr. Saxobeat bn.png", "Vol.2 jacket.jpg", "ver1.5 CDTitle.gif", "Feat. Someone-cd.png", "St. Elmo Title.png", "a.b.ogg"]
 NEAR = ["bann.png", "xbnx.png", "bgx.png", "song-bg2.png", "cdtitl.png", "xjk_song.png", "song-cdx.png", "songdisc.png", "discs.png", "song.og", "song.mp4",
